@@ -542,6 +542,19 @@ func (e *Engine) externalKey(sel *types.Selection) string {
 				return pk + n.Obj().Name() + "." + o.Name()
 			}
 		}
+		// method of a foreign (non-interface) type: pkg.Type.Method
+		if sig, ok := o.Type().(*types.Signature); ok && sig.Recv() != nil {
+			rt := sig.Recv().Type()
+			if p, ok := rt.(*types.Pointer); ok {
+				rt = p.Elem()
+			}
+			return types.TypeString(rt, func(p *types.Package) string {
+				if p == e.pkg.Types {
+					return ""
+				}
+				return p.Name()
+			}) + "." + o.Name()
+		}
 	}
 	return ""
 }
